@@ -139,7 +139,8 @@ pub trait BlsTimeCrypt:
 
         let mut w = vec![0u8; msg.len()];
         reader.read(&mut w);
-        debug_assert!(!w.iter().all(|x| *x == 0));
+        // the buffer length is chosen by the sender: only a full-size keystream is expected to be non-zero
+        debug_assert!(w.len() < 32 || !w.iter().all(|x| *x == 0));
         // W = HℓX(\alpha) ⊕ M
         byte_xor(msg, &w)
     }
